@@ -555,11 +555,20 @@ func (ps *PruningStorer) Remove(key []byte) error {
 
 	ps.lock.RLock()
 	defer ps.lock.RUnlock()
+	// the key has to be removed from all the active persisters: persisters report no error when asked to remove
+	// a missing key, so stopping at the first success might leave the key in an older active epoch
+	removed := false
 	for _, pd := range ps.activePersisters {
-		err = pd.persister.Remove(key)
-		if err == nil {
-			return nil
+		errRemove := pd.persister.Remove(key)
+		if errRemove != nil {
+			err = errRemove
+			continue
 		}
+
+		removed = true
+	}
+	if removed {
+		return nil
 	}
 
 	return err
